@@ -13,16 +13,21 @@ Fixpoint den (W : world) (rho : asg) (e : opnd) : val :=
   | OAttr e a => getattr W (den W rho e) a
   end.
 
-Fixpoint sat (W : world) (rho : asg) (c : cond) : bool :=
+Definition upd (rho : asg) (x : var) (w : val) : asg := fun y => if Nat.eqb y x then w else rho y.
+
+Fixpoint sat (W : world) (D : domains) (rho : asg) (c : cond) : bool :=
   match c with
   | CCmp op l r => apply_op W op (den W rho l) (den W rho r)
-  | CAnd l r => sat W rho l && sat W rho r
-  | CElseIf l r | CUnion l r => sat W rho l || sat W rho r
-  | CNot c => negb (sat W rho c)
+  | CAnd l r => sat W D rho l && sat W D rho r
+  | CElseIf l r | CUnion l r => sat W D rho l || sat W D rho r
+  | CNot c => negb (sat W D rho c)
+  | CExists (OVar y) c => existsb (fun v => sat W D (upd rho y v) c) (D y)
+  | CExists _ c => sat W D rho c
+  | CForAll y c => forallb (fun v => sat W D (upd rho y v) c) (D y)
   end.
 
-Definition sat_opt (W : world) (rho : asg) (c : option cond) : bool :=
-  match c with Some c => sat W rho c | None => true end.
+Definition sat_opt (W : world) (D : domains) (rho : asg) (c : option cond) : bool :=
+  match c with Some c => sat W D rho c | None => true end.
 
 Definition in_dom_on (D : domains) (xs : list var) (rho : asg) : Prop :=
   forall x, In x xs -> In (rho x) (D x).
@@ -30,7 +35,7 @@ Definition in_dom_on (D : domains) (xs : list var) (rho : asg) : Prop :=
 (* [row] is an answer of [q]: one assignment of the query's variables to elements of their domains
    satisfies the condition, and every selected expression is evaluated under that same assignment *)
 Definition answer (W : world) (D : domains) (q : query) (row : list val) : Prop :=
-  exists rho, in_dom_on D (query_vars q) rho /\ sat_opt W rho (q_cond q) = true /\
+  exists rho, in_dom_on D (query_vars q) rho /\ sat_opt W D rho (q_cond q) = true /\
               row = map (den W rho) (q_sels q).
 
 (* ---------- executable companion: enumerate the assignments of the query's variables ---------- *)
@@ -52,7 +57,7 @@ Fixpoint assignments (D : domains) (xs : list var) : list binds :=
 
 Definition answers_exec (W : world) (D : domains) (q : query) : list (list val) :=
   map (fun b => map (den W (asg_of b)) (q_sels q))
-      (filter (fun b => sat_opt W (asg_of b) (q_cond q)) (assignments D (nodup Nat.eq_dec (query_vars q)))).
+      (filter (fun b => sat_opt W D (asg_of b) (q_cond q)) (assignments D (nodup Nat.eq_dec (query_vars q)))).
 
 (* ---------- the companion computes exactly the answers ---------- *)
 Lemma den_ext W rho rho' e :
@@ -64,15 +69,44 @@ Proof.
   - f_equal. apply IH. intros x Hx. apply H. exact Hx.
 Qed.
 
-Lemma sat_ext W rho rho' c :
-  (forall x, In x (cond_vars c) -> rho x = rho' x) -> sat W rho c = sat W rho' c.
+Lemma upd_eq rho x w : upd rho x w x = w.
+Proof. unfold upd. now rewrite Nat.eqb_refl. Qed.
+Lemma upd_ne rho x w y : y <> x -> upd rho x w y = rho y.
+Proof. unfold upd. intros H. destruct (Nat.eqb_spec y x); [contradiction|reflexivity]. Qed.
+
+Lemma in_remove_var x y l : In x (remove_var y l) <-> In x l /\ x <> y.
 Proof.
-  induction c as [op l r|l IHl r IHr|l IHl r IHr|l IHl r IHr|c IH]; simpl; intros H.
+  unfold remove_var. rewrite filter_In. split; intros [H1 H2]; split; auto.
+  - intros ->. rewrite Nat.eqb_refl in H2. discriminate.
+  - destruct (Nat.eqb_spec x y); [contradiction|reflexivity].
+Qed.
+
+Lemma existsb_ext_in {A} (f g : A -> bool) l : (forall a, In a l -> f a = g a) -> existsb f l = existsb g l.
+Proof. induction l as [|a l IH]; simpl; intros H; auto. rewrite H, IH; auto. Qed.
+Lemma forallb_ext_in {A} (f g : A -> bool) l : (forall a, In a l -> f a = g a) -> forallb f l = forallb g l.
+Proof. induction l as [|a l IH]; simpl; intros H; auto. rewrite H, IH; auto. Qed.
+
+Lemma sat_ext W D c : forall rho rho',
+  (forall x, In x (cond_fv c) -> rho x = rho' x) -> sat W D rho c = sat W D rho' c.
+Proof.
+  induction c as [op l r|l IHl r IHr|l IHl r IHr|l IHl r IHr|c IH|e c IH|y c IH]; simpl; intros rho rho' H.
   - rewrite (den_ext W rho rho' l), (den_ext W rho rho' r); auto; intros x Hx; apply H, in_or_app; auto.
-  - rewrite IHl, IHr; auto; intros x Hx; apply H, in_or_app; auto.
-  - rewrite IHl, IHr; auto; intros x Hx; apply H, in_or_app; auto.
-  - rewrite IHl, IHr; auto; intros x Hx; apply H, in_or_app; auto.
-  - rewrite IH; auto.
+  - rewrite (IHl rho rho'), (IHr rho rho'); auto; intros x Hx; apply H, in_or_app; auto.
+  - rewrite (IHl rho rho'), (IHr rho rho'); auto; intros x Hx; apply H, in_or_app; auto.
+  - rewrite (IHl rho rho'), (IHr rho rho'); auto; intros x Hx; apply H, in_or_app; auto.
+  - rewrite (IH rho rho'); auto.
+  - assert (Hq : forall y, (forall x, In x (remove_var y (cond_fv c)) -> rho x = rho' x) ->
+                 existsb (fun v => sat W D (upd rho y v) c) (D y) = existsb (fun v => sat W D (upd rho' y v) c) (D y)).
+    { intros y Hy. apply existsb_ext_in. intros v _. apply IH. intros x Hx.
+      destruct (Nat.eq_dec x y) as [->|Hne]; [now rewrite !upd_eq|].
+      rewrite !upd_ne by exact Hne. apply Hy. apply in_remove_var. auto. }
+    destruct e as [v|y|e' a]; simpl in H.
+    + apply IH. intros x Hx. apply H. exact Hx.
+    + apply Hq. exact H.
+    + apply IH. intros x Hx. apply H. apply in_or_app. auto.
+  - apply forallb_ext_in. intros v _. apply IH. intros x Hx.
+    destruct (Nat.eq_dec x y) as [->|Hne]; [now rewrite !upd_eq|].
+    rewrite !upd_ne by exact Hne. apply H. apply in_remove_var. auto.
 Qed.
 
 Lemma lookup_cons_eq x v b : lookup ((x, v) :: b) x = Some v.
@@ -105,9 +139,9 @@ Proof.
       * rewrite lookup_cons_ne by exact Hne. destruct Hx as [->|Hx]; [contradiction|auto].
 Qed.
 
-Lemma sat_opt_ext W rho rho' c :
-  (forall x, In x (match c with Some c => cond_vars c | None => [] end) -> rho x = rho' x) ->
-  sat_opt W rho c = sat_opt W rho' c.
+Lemma sat_opt_ext W D rho rho' c :
+  (forall x, In x (match c with Some c => cond_fv c | None => [] end) -> rho x = rho' x) ->
+  sat_opt W D rho c = sat_opt W D rho' c.
 Proof. destruct c; simpl; auto. apply sat_ext. Qed.
 
 Lemma map_den_ext W rho rho' es :
